@@ -26,14 +26,15 @@ def guardName : Guard → String
   | .installOnly => "installOnly" | .neverWritten => "neverWritten" | .castNoWrite => "castNoWrite"
   | .ownerOnly => "ownerOnly" | .lazyListHead => "lazyListHead" | .headForced => "headForced"
   | .noConstLookup => "noConstLookup" | .emptyChecked => "emptyChecked" | .noConstCaller => "noConstCaller"
-  | .listConstNoAlloc => "listConstNoAlloc"
+  | .listConstNoAlloc => "listConstNoAlloc" | .readOnlyUse => "readOnlyUse"
 
 def effectName : Effect → String
   | .none => "none" | .privateWrite => "privateWrite" | .syncWrite => "syncWrite" | .sharedWrite => "sharedWrite"
 
 def kindOfName : String → Option Kind
   | "mutableMember" => some .mutableMember | "constCast" => some .constCast | "constPathCall" => some .constPathCall
-  | "localStatic" => some .localStatic | "lazyContainer" => some .lazyContainer | "globalVar" => some .globalVar | _ => none
+  | "localStatic" => some .localStatic | "lazyContainer" => some .lazyContainer
+  | "transformTouch" => some .transformTouch | "globalVar" => some .globalVar | _ => none
 
 def demo : Machine (List Nat) Nat Nat where
   step := fun s p => (s, p + 1, [s.getD p 0 + p])
